@@ -271,7 +271,7 @@ var ModesAll = append(append([]apd.Rounder{}, Modes8...), "", "bogus")
 // limits, where system-limit errors are an accepted outcome.
 func nearLimit(vs ...ref.Val) bool {
 	for _, v := range vs {
-		if v.Form != ref.Finite {
+		if v.Form != ref.Finite || v.Coef == nil { // nil: the absent second operand of a unary operation
 			continue
 		}
 		if abs(v.Exp) > 99000 || abs(v.Adj()) > 99000 {
